@@ -23,9 +23,20 @@ DEFAULT_PEN = {"enc": F(300), "ovl": F(100), "prec": F(100), "opt": F(100), "sha
 def gen_instance(rng, max_qubits):
     """raw instance = list of jobs, job = list of (machine index, duration); plus a limit with slack 0..3"""
     for _ in range(200):
-        shape = rng.randrange(8)
+        shape = rng.randrange(9)
         nm = rng.randint(1, 4)
-        if shape == 0:
+        if shape == 8:
+            # long operations, little slack: few qubits but large makespan weights (n_jobs+1)^end (beyond 2^63 from limit 40 for two jobs)
+            nj = rng.randint(1, 3)
+            target = rng.choice([24, 33, 41, 52, 64])
+            jobs = []
+            for _ in range(nj):
+                k = rng.randint(1, 2)
+                ms = rng.sample(range(max(nm, 2)), k)
+                total = target - rng.randint(0, 2)
+                first = rng.randint(1, total - 1) if k == 2 else total
+                jobs.append([(ms[0], first)] + ([(ms[1], total - first)] if k == 2 else []))
+        elif shape == 0:
             jobs = [[(rng.randrange(nm), rng.randint(1, 3))] for _ in range(rng.randint(1, 4))]  # only single-operation jobs
         elif shape == 1:
             k = rng.randint(1, nm)
@@ -344,6 +355,116 @@ def analyse(ctx, prop, jobs, limit, pen, tag, max_diag_qubits):
         violate("C15", "feasible schedules exist within the limit but no bitstring decodes to one", feas[0])
 
 
+def z_terms(H):
+    """[(mask over qubits (bit q = qubit q), coefficient)] of a diagonal SparsePauliOp; raises ValueError otherwise"""
+    n = H.num_qubits
+    out = []
+    for label, coeff in zip(H.paulis.to_labels(), H.coeffs):
+        mask = 0
+        for pos, ch in enumerate(label):
+            if ch == "Z":
+                mask |= 1 << (n - 1 - pos)
+            elif ch != "I":
+                raise ValueError("not diagonal: " + label)
+        out.append((mask, float(coeff.real)))
+    return out
+
+
+def sparse_energy(terms, state):
+    import math
+
+    return math.fsum(-c if bin(m & state).count("1") & 1 else c for m, c in terms)
+
+
+def analyse_sparse(ctx, prop, jobs, limit, pen, tag):
+    """large makespan limits (tens to hundreds of qubits): energies of the basis states of feasible schedules, summed exactly (math.fsum) from the Pauli
+    terms; oracle: strictly increasing with the makespan (C02) and inside [0, W] (C01); correspondence with the model on the same basis states"""
+    drv = ctx.lean("Encoder")
+    inst_json = [[list(o) for o in j] for j in jobs]
+    inp = {"inst": inst_json, "limit": limit, "pen": pen_json(pen), "sparse": True}
+    other = ctx.extra.setdefault("_other", {})
+
+    def violate(p, what, observed=None, extra=None):
+        if p == prop:
+            ctx.violate(what, dict(inp, **(extra or {})), observed, key=f"{p}:{what[:70]}")
+        else:
+            other[p] = other.get(p, 0) + 1
+
+    inst, enc = build(jobs, limit, pen)
+    n = enc.n_qubits
+    ctx.case(inp, True, tags=[tag, f"jobs:{len(jobs)}", "qubits:12+", "share0" if pen["share"] == 0 else "share>0"])
+    try:
+        terms = z_terms(enc.get_problem_hamiltonian())
+    except Exception as e:  # noqa: BLE001
+        violate("C15", "no diagonal Hamiltonian for a valid instance and limit", repr(e)[:100])
+        return
+    scale = sum(abs(c) for _, c in terms)
+    longest = max(sum(d for _, d in j) for j in jobs)
+    # feasible schedules with a small makespan, enumerated independently of the encoder
+    feas = []
+    for horizon in range(longest, min(limit, longest + 4) + 1):
+        feas = feasible_schedules(jobs, horizon, cap=400)
+        if len(feas) >= 40:
+            break
+    if not feas:
+        return
+    W = float(pen["opt"])
+    rows_E = []
+    bitstrings = []
+    for sch in feas:
+        state = 0
+        for job, row in zip(inst.jobs, sch):
+            for op, s in zip(job.operations, row):
+                v = enc._operation_start_variables[op]
+                k = list(v.values).index(s)
+                state |= ((1 << k) - 1) << v._qubit_start_index
+        bs = format(state, f"0{n}b")
+        rows, valid, mk = decode_impl(enc, inst, bs)
+        if rows != [list(r) for r in sch] or not valid:
+            violate("C15", "the basis state of a feasible schedule does not decode to that schedule", {"schedule": sch, "decoded": rows})
+            continue
+        e = sparse_energy(terms, state)
+        rows_E.append((mk, e, bs))
+        bitstrings.append(bs)
+        if not (-1e-12 * scale <= e <= W + 1e-12 * scale):
+            violate("C01", "the energy of a feasible schedule is outside [0, optimisation weight]", {"energy": e, "makespan": mk}, {"bits": bs})
+    if pen["share"] == 0:
+        by_mk = {}
+        for mk, e, bs in rows_E:
+            by_mk.setdefault(mk, []).append((e, bs))
+        mks = sorted(by_mk)
+        for a, b in zip(mks, mks[1:]):
+            hi, lo = max(by_mk[a]), min(by_mk[b])
+            # doubles resolve the weights (n+1)^(end-limit) only down to about 1e-13 of the coefficient scale
+            if lo[0] > 1e-11 * scale and not hi[0] < lo[0]:
+                violate("C02", "a feasible schedule with a smaller makespan does not have strictly smaller energy", {"makespans": [a, b], "energies": [hi[0], lo[0]]},
+                        {"bits": hi[1], "bits2": lo[1]})
+    if drv is not None and bitstrings:
+        r = drv.ask({"op": "enc.energy", "inst": inst_json, "limit": limit, "pen": pen_json(pen), "bits": [b[::-1] for b in bitstrings]})
+        if "energies" not in r:
+            ctx.disagree("enc.energy (sparse)", inp, "ok", r)
+        else:
+            for (mk, e, bs), me in zip(rows_E, r["energies"]):
+                m = float(F(me))
+                if abs(e - m) > 1e-12 * scale + 1e-6 * abs(m):
+                    ctx.disagree("enc.energy value (sparse)", dict(inp, bits=bs), e, m)
+                    break
+
+
+def gen_sparse_instance(rng):
+    shape = rng.randrange(3)
+    if shape == 0:
+        jobs = [[(0, rng.randint(1, 2)), (1, rng.randint(1, 2))], [(1, rng.randint(1, 2)), (0, rng.randint(1, 2))]]
+        limit = rng.randint(16, 30)
+    elif shape == 1:
+        jobs = [[(rng.randrange(2), rng.randint(1, 2))] for _ in range(3)]
+        limit = rng.randint(12, 20)
+    else:
+        jobs = [[(0, 1), (1, 2)], [(1, 1)], [(0, 2)]]
+        limit = rng.randint(10, 18)
+    return jobs, limit
+
+
 def run_cluster(ctx, prop):
     rng = ctx.rng
     maxq = ctx.n(9, 12)
@@ -381,6 +502,16 @@ def run_cluster(ctx, prop):
         ]
     for jobs, limit, pen in fixed:
         analyse(ctx, prop, jobs, limit, dict(pen), "fixed", 15)
+    # long operations: the makespan weights exceed 2^63 (two jobs of length 39 at limit 40: 4 qubits)
+    for jobs, limit in [([[(0, 39)], [(1, 20), (0, 19)]], 40), ([[(0, 31)], [(1, 31)], [(0, 15), (1, 16)]], 32), ([[(0, 30), (1, 33)]], 64)]:
+        analyse(ctx, prop, jobs, limit, dict(DEFAULT_PEN), "long-operations", 15)
+    # large limits (sparse: only the basis states of feasible schedules)
+    sub = ctx.sub_rng("sparse")
+    for _ in range(ctx.n(3, 40)):
+        if ctx.out_of_time():
+            break
+        jobs, limit = gen_sparse_instance(sub)
+        analyse_sparse(ctx, prop, jobs, limit, dict(DEFAULT_PEN) if sub.random() < 0.6 else dict(gen_penalties(sub), share=F(0)), "large-limit")
     other = ctx.extra.pop("_other", {})
     if other:
         ctx.notes.append(f"oracle violations of sibling properties seen in this run (reported by their own checks): {other}")
